@@ -108,6 +108,14 @@ CHECKS = {
         'and a hostile-input monitor (curated + grammar-derived mutated formulas over 17 grader configurations incl. sibling/dependent-sampler lists) under a wall-clock alarm.',
    note=PROOF_NOTE + ' Partial: which internal exception numpy/pyparsing/CPython raises for a given string, and termination of the real evaluation, are not modelled; they are monitored (exploration, not proof) by the hostile-input fuzz, whose case counts are in the evidence. expect values are assumed to be text.',
    technique='Lean 4 proof (stack machine <-> balanced grammar, decision tables, generated class-tree obligations) + correspondence + hostile-input monitor', design='§6 C02'),
+ 'C09': dict(
+   text='check_math_response / post_eval_validation (forbidden strings compared without spaces, required functions, permitted functions), get_permitted_functions, the student scope of gen_evaluations (sample names minus instructor-only and sibling variables) and MathExpression.check_scope modelled on top of the C10 usage sets; '
+        'proved for every configuration, formula and numeric verdict: whenever a result with credit (correct, partial or positive grade) is returned the formula contains no forbidden string, uses every required function and only permitted functions; conversely a formula that would earn credit is refused if it violates any of them; '
+        'a function or variable occurring ANYWHERE in the parse tree (argument positions, array entries, exponents, cancelling terms) is seen by the validators and the scope check (via usage_exact), so a name outside the student\'s scope is an UndefinedVariable error independently of its value; closed form of the permitted set; instructor and sibling variables are never in scope. '
+        'Tie: Formula/Matrix graders over an option grid (blacklist / whitelist / whitelist=[None] / user functions / instructor variables / numbered variables / constants / forbidden strings / required functions / metric suffixes) x cheating formulas = correct answer combined with a value-neutral term using the restricted construct in several tree positions, case/prime/numbered near-miss names, suffixes; '
+        'the recorded raw verdict is handed to the model and the final outcome (result or error class with the reported names) compared; Numerical/Sum graders and sibling lists against the property oracle "never credit for a cheating formula"; get_permitted_functions against its closed form.',
+   note=PROOF_NOTE + ' Partial: the numeric verdict is a parameter (C04); evaluation errors that pre-empt a restriction are avoided by the generators. The author\'s answers using restricted constructs are exercised on the implementation only.',
+   technique='Lean 4 proof (decision logic of the validators composed with the usage-exactness theorem of the parser) + correspondence + cheating-formula oracle', design='§6 C09'),
  'C11': dict(
    text='ItemGrader.__call__ / AbstractGrader.__call__ modelled as a state machine over the grader object (stored answers, inferring flag, log flag, debug log) with validation, text check and grading as parameters; proved by induction over ANY call history '
         '(including calls that raise in validation, in the input check or in grading): the next call returns what a freshly constructed grader returns for the current expect value or the last successfully supplied one; '
